@@ -79,7 +79,9 @@ def run_property(prop, tier, repo=None, variants=None, verbose=True, replay=None
     repo = repo or build.REPO
     mod = importlib.import_module("rules." + prop)
     if variants is None:
-        variants = ["default"]
+        # QUICK_VARIANTS: configurations whose code the default build compiles out although the property
+        # is mostly about that code (e.g. the fallback execution-stream barrier)
+        variants = ["default"] + [v for v in getattr(mod, "QUICK_VARIANTS", [])]
         if tier == "thorough":
             variants = ["default"] + [v for v in getattr(mod, "VARIANTS", [])]
     reports = []
